@@ -26,3 +26,36 @@ SFG_BOUNDS = {
     "source": "each symbol, each state, the statement",
     "construction": "real SFGNode/SFGEdge through the real StateFlowGraph.add_edge (nx.DiGraph, weight = SFGEdge)",
 }
+
+
+def template_slices(mode):
+    """Typed template: 2 symbols (s, q), 3 states, 1 assign statement `q = f(s)` (s used@1, q defined, no symbol flow);
+    every symbol->state edge set and every acyclic state-inclusion edge set; source s."""
+    h = importlib.import_module(M)
+    shape = (2, 3, 1)
+    slots = h.edge_slots(*shape)
+    fix = {}
+    for k, (sk, i, dk, j, opts) in enumerate(slots):
+        if sk == "sym" and dk == "stmt":
+            fix[str(k)] = [2] if i == 0 else [0]          # s used at position 1, q not used
+        elif sk == "stmt" and dk == "sym":
+            fix[str(k)] = [1] if j == 1 else [0]          # defines q
+        elif sk == "sym" and dk == "sym":
+            fix[str(k)] = [0]
+        elif sk == "state" and dk == "state" and i > j:
+            fix[str(k)] = [0]                             # inclusion hierarchies are acyclic here: parent index < child index
+    free_state_slots = [k for k, (sk, i, dk, j, opts) in enumerate(slots) if sk == "sym" and dk == "state"]
+    out = []
+    for a in (0, 1):
+        for b in (0, 1):
+            for c in (0, 1):
+                f2 = dict(fix)
+                f2[str(free_state_slots[0])] = [a]
+                f2[str(free_state_slots[1])] = [b]
+                f2[str(free_state_slots[2])] = [c]
+                out.append(dict(shape=list(shape), mode=mode, src=[0], op=[0], fix=f2))
+    return out
+
+
+TEMPLATE_BOUNDS = {"template": "symbols s,q; 3 states; statement q = f(s); all 2^6 symbol->state edge sets x all 2^3 acyclic "
+                               "state-inclusion edge sets; source s", "graphs": 512}
